@@ -165,6 +165,7 @@ type Path struct {
 
 	extra      map[string]interface{}
 	panicTrace string
+	stepBudget int64 // raised by vrt.Budget for this path
 	solverHint string
 	tokCache   map[string][]value
 	ranges     map[int32]*rng
